@@ -127,6 +127,10 @@ def run_tlc(module, cfg_text, workers=1, simulate=None, depth=None, seed=None, t
             res['error_trace'] = out[i:i + 6000]
         completed = ('Model checking completed. No error has been found.' in out) or \
                     (simulate is not None and p.returncode == 0)
+        # with several workers TLC prints exports in a run-dependent order: fix the order so that seeded sampling downstream
+        # selects the same cases in every run
+        for tag in res['exports']:
+            res['exports'][tag].sort(key=lambda r: json.dumps(r, sort_keys=True))
         res['ok'] = completed and res['violated'] is None
         if not res['ok'] and res['violated'] is None:
             # machinery failure (parse error, evaluation error, ...)
